@@ -47,7 +47,11 @@ Proof.
   - contradiction.
   - destruct Hd as [<-|[]]. left. reflexivity.
 Qed.
+Definition retry_obs : option (lpc * list (nstatus * nat)) :=
+  match run diamond (init_from diamond retry_tbl) retry_ls with
+  | Some s => Some (pc s, map (fun i => (st (nd s i), att (nd s i))) [0;1;2;3])
+  | None => None
+  end.
 Lemma retry_example_run :
-  exists s, run diamond (init_from diamond retry_tbl) retry_ls = Some s /\ pc s = LDone /\
-            map (fun i => (st (nd s i), att (nd s i))) [0;1;2;3] = [(NSuccess, 0); (NSuccess, 1); (NSuccess, 0); (NSuccess, 1)].
-Proof. eexists. repeat split; vm_compute; reflexivity. Qed.
+  retry_obs = Some (LDone, [(NSuccess, 0); (NSuccess, 1); (NSuccess, 0); (NSuccess, 1)]).
+Proof. vm_compute. reflexivity. Qed.
